@@ -8,7 +8,8 @@ from ..lib import coqrun, driver, env, proofs, report
 
 PROP = "C10"
 FLAT_BITS = (4,)        # flat_case_code: refinement of the two flat_cluster outputs
-LEX_BITS = (5,)         # lex_case_code: refinement of the two id columns
+LEX_BITS = (5, 6)       # lex_case_code: refinement of the two id columns; 6: the word distances used by the two
+                        # calls differ (the premise "same method / scoring function" is broken by the code itself)
 LEX_COUNTS = {"quick": 200, "thorough": 3000}
 
 
